@@ -647,7 +647,7 @@ class MarkovNetwork(UndirectedGraph):
             rest = all_vars - set([node]) - markov_blanket
             try:
                 local_independencies.add_assertions(
-                    [node, list(rest), list(markov_blanket)]
+                    [[node], list(rest), list(markov_blanket)]
                 )
             except ValueError:
                 pass
